@@ -341,6 +341,30 @@ func (r *rewriter) rewriteStmt(s ast.Stmt, inGo bool) []ast.Stmt {
 
 func (r *rewriter) rewriteSelect(x *ast.SelectStmt, inGo bool) []ast.Stmt {
 	r.usesSched = true
+	// select { case ch <- v: A; default: B }  ->  if vsched.TrySend(ch, v) { A } else { B }
+	if len(x.Body.List) == 2 {
+		var sendC, defC *ast.CommClause
+		for _, c := range x.Body.List {
+			cc := c.(*ast.CommClause)
+			if cc.Comm == nil {
+				defC = cc
+			} else if _, ok := cc.Comm.(*ast.SendStmt); ok {
+				sendC = cc
+			}
+		}
+		if sendC != nil && defC != nil {
+			snd := sendC.Comm.(*ast.SendStmt)
+			a, b := []ast.Stmt{}, []ast.Stmt{}
+			for _, s := range sendC.Body {
+				a = append(a, r.rewriteStmt(s, inGo)...)
+			}
+			for _, s := range defC.Body {
+				b = append(b, r.rewriteStmt(s, inGo)...)
+			}
+			return []ast.Stmt{&ast.IfStmt{Cond: call(sel("vsched", "TrySend"), r.rewriteExpr(snd.Chan), r.rewriteExpr(snd.Value)),
+				Body: &ast.BlockStmt{List: a}, Else: &ast.BlockStmt{List: b}}}
+		}
+	}
 	pre := []ast.Stmt{}
 	cases := []ast.Expr{}
 	clauses := []ast.Stmt{}
